@@ -14,6 +14,9 @@ import (
 	ctyjson "github.com/zclconf/go-cty/cty/json"
 )
 
+var prevJSONBytes []byte
+var prevJSONDigest string
+
 func init() { register("jsonc", driveJSON) }
 
 func tokDoc(dec *json.Decoder) (J, error) {
@@ -198,6 +201,11 @@ func driveJSON(c *Ctx) error {
 						case err != nil:
 							ev["m"] = failed("error", trunc(err.Error()))
 						default:
+							// the bytes returned by the previous Marshal call, as they were then and as they are now
+							if prevJSONBytes != nil {
+								ev["pb"], ev["pb2"] = prevJSONDigest, digestOf(string(prevJSONBytes))
+							}
+							prevJSONBytes, prevJSONDigest = b, digestOf(string(b))
 							doc, derr := bytesDoc(b)
 							m := J{"ok": true, "valid": json.Valid(b) && derr == nil, "text": trunc(string(b))}
 							if derr == nil {
